@@ -2,7 +2,7 @@
 # usage: tools/ingest_seed.sh <Cxx> <k> "<needs to manifest>"
 # Confirms a sub-agent's seeded change in its scratch worktree /tmp/wt-<Cxx> (suite passes with the
 # patch; demo fails with it and passes without), then keeps it as /verif/seeded/<Cxx>-<k>/.
-P=$1; K=$2; NEEDS=$3
+P=$1; K=$2; NEEDS=$3; ID=${4:-$2}
 WT=/tmp/wt-$P; SD=$WT/_seed/$K
 cd "$WT" || exit 2
 git checkout -q -- edzed || exit 2
@@ -21,4 +21,4 @@ if [ -n "$FAILED" ]; then
   T="$T; re-run of [$FAILED] alone: $T2"
 fi
 git checkout -q -- edzed
-cd /verif && /venv/bin/python tools/keep_seed.py "$SD" "$P-$K" "$P" "$NEEDS" --tests "$T"
+cd /verif && /venv/bin/python tools/keep_seed.py "$SD" "$P-$ID" "$P" "$NEEDS" --tests "$T"
